@@ -1262,6 +1262,11 @@ class PX:
             return Sym(f"{b.name}.{attr}")
         if type(b).__module__ == "re" or isinstance(b, _ExitStack):
             return _PyMethod(b, attr)
+        if type(b).__module__ in ("_struct", "struct"):
+            if not hasattr(b, attr):
+                raise Exc("AttributeError", (attr,), origin=_text(e) if e is not None else attr)
+            v = getattr(b, attr)
+            return _PyMethod(b, attr) if callable(v) else v
         if isinstance(b, PyModel):
             if not hasattr(b, attr):
                 raise Exc("AttributeError", (attr,), origin=_text(e) if e is not None else attr)
@@ -1846,6 +1851,16 @@ class PX:
                     return fn(*[bytes(a) if isinstance(a, bytearray) else a for a in args], **kw)
                 except _real_re.error:
                     raise Exc("error", (), origin=text)
+        if isinstance(fval, TypeRef) and fval.name.startswith("struct.") and not any(isinstance(a, (Sym, Obj)) or _has_sym(a) for a in list(args) + list(kw.values())):
+            # the struct module on concrete input is part of the trusted base, modelled by itself (like re / binascii)
+            import struct as _real_struct
+
+            fn = getattr(_real_struct, fval.name[7:], None)
+            if callable(fn):
+                try:
+                    return fn(*[bytes(a) if isinstance(a, bytearray) else (a.value if isinstance(a, Member) else a) for a in args], **kw)
+                except _real_struct.error as ex:
+                    raise Exc("error", (str(ex),), origin=text)
         if isinstance(fval, TypeRef) and fval.name == "dataclasses.replace" and args and isinstance(args[0], Obj):
             o = Obj(args[0].cls, {**args[0].fields, **kw}, tag=args[0].tag)
             return o
@@ -2209,6 +2224,15 @@ class PX:
             if any(isinstance(a, (Sym, Obj)) for a in args):
                 return Sym(f"{text}#{self._count('call:' + text)}")
             return getattr(obj, name)(*[bytes(a) if isinstance(a, bytearray) else a for a in args], **kw)
+        if type(obj).__module__ in ("_struct", "struct"):
+            if any(isinstance(a, (Sym, Obj)) or _has_sym(a) for a in args):
+                return Sym(f"{text}#{self._count('call:' + text)}")
+            import struct as _real_struct2
+
+            try:
+                return getattr(obj, name)(*[bytes(a) if isinstance(a, bytearray) else (a.value if isinstance(a, Member) else a) for a in args], **kw)
+            except _real_struct2.error as ex:
+                raise Exc("error", (str(ex),), origin=text)
         mutators = {"append", "extend", "add", "pop", "remove", "clear", "update", "setdefault", "discard", "insert",
                     "popitem", "sort", "reverse"}
         if name in mutators and isinstance(obj, (list, dict, set, bytearray)):
